@@ -854,6 +854,9 @@ var corpus = []string{
 	"const C = (1<<511 + 0i) * (1<<511 + 0i)",
 	"const C = 1e3i / ((1 << 256) + 1)",
 	"const C = (1<<300 + 1i) * (1<<300 - 1i)",
+	"const C = (1 << 511 * 1i) * (1 << 511 * 1i)",
+	"const C = (3 + 1 << 300 * 1i) * (5 + 1 << 300 * 1i)",
+	"const C = 1 / (1 << 300 * 1i)",
 	// regressions of fix 01e9b06 (ordered comparison of complex constants was accepted)
 	"const C = complex128(1) < 2",
 	"const C = complex64(1) >= complex64(2)",
